@@ -170,6 +170,38 @@ def o_constructor(case):
     return None
 
 
+def o_history(case):
+    """a sequence of set_parameters calls on one object: every call with a valid triple stores exactly that
+    triple, every other call raises ValueError and leaves the object as it was; after the history the object
+    still modulates / demodulates a probe vector correctly"""
+    o = _ofdm()
+    f, c, u = case['init']
+    obj = o.OFDM(f, c, u)
+    cur = (f, c, u)
+    for k, (f, c, u) in enumerate(case['ops']):
+        uu = f if u is None else u
+        try:
+            obj.set_parameters(f, c, u)
+            raised = False
+        except ValueError:
+            raised = True
+        except Exception as e:
+            return 'history-wrong-exception', 'op %d: %s' % (k, type(e).__name__)
+        if valid(f, c, uu):
+            if raised:
+                return 'history-rejects-valid', 'op %d %r' % (k, (f, c, u))
+            cur = (f, c, uu)
+        elif not raised:
+            return 'history-accepts-invalid', 'op %d %r' % (k, (f, c, u))
+        if (obj.fft_size, obj.cp_size, obj.num_used_subcarriers) != cur:
+            return 'history-state', 'after op %d: %r, expected %r' % (k, (obj.fft_size, obj.cp_size, obj.num_used_subcarriers), cur)
+    x = np.arange(1, cur[2] + 2).astype(complex)
+    back = obj.demodulate(np.array(obj.modulate(x.copy()), copy=True))
+    if back.size < x.size or float(np.max(np.abs(back[:x.size] - x))) > 1e-9 * x.size:
+        return 'history-roundtrip', 'object unusable after the history'
+    return None
+
+
 def o_roundtrip(case):
     """demodulate(modulate(x)) = x followed only by zero padding, for a valid configuration"""
     o = _ofdm()
@@ -300,7 +332,7 @@ def o_onetap(case):
     return None
 
 
-ORACLES = {'constructor': o_constructor, 'roundtrip': o_roundtrip, 'structure': o_structure,
+ORACLES = {'history': o_history, 'constructor': o_constructor, 'roundtrip': o_roundtrip, 'structure': o_structure,
            'guards': o_guards, 'onetap': o_onetap}
 
 
@@ -358,12 +390,13 @@ def gen_length(rng, used):
     return rng.randint(1, 4 * used)
 
 
-def gen_profile(rng, max_memory, ntaps_max=6):
-    """distinct integer delays starting anywhere in [0, max_memory], with the last one = memory"""
-    memory = rng.randint(0, max_memory) if rng.chance(0.7) else max_memory
+def gen_profile(rng, max_memory, ntaps_max=6, force=False):
+    """distinct integer delays starting anywhere in [0, max_memory], with the last one = memory
+    (`force`: memory = max_memory and at least two taps when there is room)"""
+    memory = max_memory if force else (rng.randint(0, max_memory) if rng.chance(0.7) else max_memory)
     others = list(range(0, memory))
     rng.shuffle(others)
-    k = min(len(others), rng.randint(0, ntaps_max - 1))
+    k = min(len(others), rng.randint(1 if force else 0, ntaps_max - 1))
     delays = sorted(others[:k] + [memory])
     powers = [round(-rng.uniform(0, 20), 3) for _ in delays]
     draw = [[rng.gauss(), rng.gauss()] for _ in delays]
@@ -593,8 +626,16 @@ def corr_channel(ctx, b, i, fmax):
         x = cx(gen_symbols(rng, n, integer=False))
         tx = obj.modulate(x.copy())
         # memory anywhere in 0 .. fft+2 (also beyond the CP and beyond the FFT size: the model crops like the code)
-        delays, powers, draw = gen_profile(rng, rng.choice([cp, cp, fft, fft + 2, max(0, cp - 1)]))
-        static = rng.chance(0.5)
+        mode = i % 8          # the structured corners are visited deterministically, the rest is seeded
+        if mode == 1:
+            delays, powers, draw = gen_profile(rng, fft + 1, force=True)      # response cropped by fft(taps, fft)
+        elif mode == 2:
+            delays, powers, draw = gen_profile(rng, cp, force=True)           # memory = cp exactly
+        elif mode == 3:
+            delays, powers, draw = gen_profile(rng, cp + 1, force=True)       # one sample beyond the prefix
+        else:
+            delays, powers, draw = gen_profile(rng, rng.choice([cp, cp, fft, fft + 2, max(0, cp - 1)]))
+        static = rng.chance(0.5) if mode not in (2, 5) else mode == 2
         try:
             if static:
                 ch = make_static_channel(delays, powers, cx(draw))
@@ -713,6 +754,14 @@ def oracles(ctx, small, nrand, fmax, nchan):
         for cp in range(-1, fft + 2):
             for used in [None] + list(range(-2, fft + 3)):
                 run_oracle(ctx, 'constructor', {'fft': fft, 'cp': cp, 'used': used}, nontrivial=False)
+    for i in range(max(20, nrand // 5)):
+        ops = []
+        for _ in range(rng.randint(1, 10)):
+            if rng.chance(0.5):
+                ops.append(list(gen_config(rng, 24)))
+            else:
+                ops.append([rng.randint(0, 12), rng.randint(-1, 14), rng.choice([None, rng.randint(-1, 14)])])
+        run_oracle(ctx, 'history', {'init': list(gen_config(rng, 24)), 'ops': ops}, key=('hist', i))
     cfgs = [(fft, cp, used) for fft in range(2, small + 1) for used in range(2, fft + 1, 2)
             for cp in sorted({0, 1, fft // 2, fft - 1, fft}) if cp <= fft]
     cfgs += [gen_config(rng, fmax) for _ in range(nrand)]
